@@ -8,7 +8,7 @@ import astropy.units as u
 from vf import chk, symx, kernels
 from vf.chk import And, Or, Not, Implies, Iff, If
 
-PIXKINDS = ['circle', 'ellipse', 'rectangle', 'polygon', 'regpoly', 'point', 'text', 'line', 'annulus-circle',
+PIXKINDS = ['circle', 'ellipse', 'rectangle', 'polygon', 'polygon-origin', 'regpoly', 'point', 'text', 'line', 'annulus-circle',
             'annulus-ellipse', 'annulus-rectangle', 'compound']
 SKYKINDS = ['sky-circle', 'sky-ellipse', 'sky-rectangle', 'sky-annulus-circle', 'sky-polygon', 'sky-point', 'sky-line',
             'sky-text']
@@ -41,6 +41,10 @@ def build(kind, m, pre, meta=None, visual=None):
     if kind == 'polygon':
         return R.PolygonPixelRegion(PixCoord(np.array([r_('x0'), r_('x1'), r_('x2')], dtype=dt),
                                              np.array([r_('y0'), r_('y1'), r_('y2')], dtype=dt)), meta=meta, visual=visual)
+    if kind == 'polygon-origin':
+        return R.PolygonPixelRegion(PixCoord(np.array([r_('x0'), r_('x1'), r_('x2')], dtype=dt),
+                                             np.array([r_('y0'), r_('y1'), r_('y2')], dtype=dt)), meta=meta, visual=visual,
+                                    origin=PixCoord(r_('ox'), r_('oy')))
     if kind == 'regpoly':
         return R.RegularPolygonPixelRegion(PixCoord(r_('cx'), r_('cy')), 4, p_('rad'), angle=m.angle(pre + 'theta', 'deg'),
                                            meta=meta, visual=visual)
